@@ -189,7 +189,21 @@ pub fn run(opts: &Opts) -> i32 {
                 let mut label = format!("v{version}");
                 if rng.chance(2, 5) {
                     let mut img = std::fs::read(&src).unwrap();
-                    let name = match rng.below(6) {
+                    let name = match rng.below(8) {
+                        6 | 7 => {
+                            // a file that was extended after it was formatted: the header still records
+                            // the old, smaller device size (it is written once); records live beyond it
+                            let nb = (img.len() / 4096) as u64;
+                            let old_blocks = 16 + rng.below(nb - 16);
+                            for copy in [0usize, 7] {
+                                if let Some(mut m) = feoxdb::storage::metadata::Metadata::from_bytes(&img[copy * 4096..(copy + 1) * 4096]) {
+                                    m.device_size = old_blocks * 4096;
+                                    let enc = m.encode();
+                                    img[copy * 4096..copy * 4096 + enc.len()].copy_from_slice(&enc);
+                                }
+                            }
+                            "header-records-a-smaller-device"
+                        }
                         4 | 5 => crate::mutimg::plant_stale_generation(&mut rng, &mut img).unwrap_or("none"),
                         0 => {
                             // an ambiguous legacy tombstone
